@@ -77,6 +77,7 @@ ProfileDef(p) ==
       [] p = "same2w2"    -> B(2, 0, 0, 2, 0, 1, FALSE, "free", 1)
       [] p = "same3"      -> B(3, 0, 0, 1, 0, 1, FALSE, "free", 1)
       [] p = "same3big"   -> B(3, 0, 0, 2, 1, 1, FALSE, "free", 1)
+      [] p = "sameridq"   -> B(1, 1, 2, 1, 0, 2, TRUE, "free", 1)
       [] p = "samerid"    -> B(1, 1, 2, 1, 0, 2, TRUE, "free", 2)
       [] p = "sameridbig" -> B(2, 1, 2, 1, 0, 2, TRUE, "free", 1)
 P == ProfileDef(prof)
